@@ -195,3 +195,10 @@ def run(ctx):
         ctx.violation(R_M, key + "|no-mark", "mark_tick_boundary_handoffs never calls set_handoff_delay_type", mtb.loc())
     if not uses_tick:
         ctx.violation(R_M, key + "|mark-not-from-tick-edges", "the delay type given to handoffs is not looked up in tick_edges", mtb.loc())
+
+    # access groups of one reference target are chained and emitted unconditionally (shared with C19); delays of nested-loop consumers are remapped
+    # to the matching loop delay with laziness preserved (shared with C26)
+    import p_C19
+    import p_C26
+    p_C19.accessgroups_rule(ctx, mir.load_crate("dfir_lang"), rid="C18.accessgroups")
+    p_C26.remap_rule(ctx, mir.load_crate("dfir_lang"), "C18.remap")
